@@ -103,8 +103,10 @@ def check_dt(acc, pendulum, z, f, kw, durations=True, fold=1):
             return      # a different instant than the fold=1 start: not the same model state
     case = {"kind": "dt", "z": z, "f": list(f), "kw": kw, "fold": fold}
     tzname = x.timezone_name
+    pos = tuple(kw.get(k, 0) for k in KEYS)          # every argument positional, in the documented order
     for name, sign, fn in (("add", 1, lambda: x.add(**kw)), ("subtract", -1, lambda: x.subtract(**kw)),
-                           ("add-negated", -1, lambda: x.add(**{k: -v for k, v in kw.items()}))):
+                           ("add-negated", -1, lambda: x.add(**{k: -v for k, v in kw.items()})),
+                           ("add-positional", 1, lambda: x.add(*pos)), ("subtract-positional", -1, lambda: x.subtract(*pos))):
         exp = expected(z, f, kw, sign)
         if exp is None:
             acc.c["skipped_out_of_range"] += 1
